@@ -66,6 +66,40 @@ def bind_ops(rng, n):
     return ops
 
 
+def bindu_ops(rng, n):
+    """a receiver that is a union of 1-3 classes, each declaring the method once or with overloads (positional, defaulted and
+    rest parameters; no keyword parameters: overloads that share a keyword name are K33), and one argument list"""
+    TY = ["I", "S", "F", "Y", "N", "U", "B", "A", "H", "O:Foo", "I+S", "S+Y+N"]
+    AR = ["I", "S", "F", "Y", "N", "B", "A( I )", "H( a= I )", "O:Foo", "O:Bar", "U( I S )", "U( F N )", "K"]
+    FIT = {"I": "I", "S": "S", "F": "F", "Y": "Y", "N": "N", "U": "I", "B": "B", "A": "A( I )", "H": "H( a= I )", "O:Foo": "O:Foo", "I+S": "U( I S )", "S+Y+N": "Y"}
+
+    def decl(base):
+        ps = []
+        for t in base:
+            ps.append("p:" + (t if rng.random() < 0.75 else rng.choice(TY)))
+        for _ in range(rng.choice([0, 0, 1])):
+            ps.append("p:" + rng.choice(TY) + "?")
+        if rng.random() < 0.15:
+            ps.append("s:" + rng.choice(TY))
+        if rng.random() < 0.15 and ps:
+            ps.pop(0)
+        return " ".join(ps) or "-"
+
+    ops = []
+    for _ in range(n):
+        base = [rng.choice(TY) for _ in range(rng.choice([0, 1, 1, 2, 2, 3]))]
+        classes = []
+        for _ in range(rng.choice([1, 2, 2, 3])):
+            classes.append(" ;; ".join(decl(base) for _ in range(rng.choice([1, 1, 2, 3]))))
+        args = [FIT[t] if rng.random() < 0.8 else rng.choice(AR) for t in base]
+        if rng.random() < 0.2 and args:
+            args.pop()
+        if rng.random() < 0.15:
+            args.append(rng.choice(AR))
+        ops.append("bindu %s | %s" % (" || ".join(classes), " ; ".join(args) or "-"))
+    return ops
+
+
 def run_calls(ctx, nconf, nprog, tag):
     """returns {"C07": [...], "C08": [...]} failure replays; known findings are printed through ctx"""
     rng = ctx.rng
